@@ -63,7 +63,7 @@ pub fn append_bytes(ctx: &mut Ctx) {
             ctx.count(if what.starts_with("cut") { "input:truncated" } else if what.starts_with("bit") { "input:altered" } else { "input:other" });
             ctx.oracle_eval();
             if hangs >= 3 { continue; }
-            let r = crate::util::isolated(5_000, 2048, move || match catch(move || append_in_process(i2, n2, c2)) {
+            let r = crate::util::isolated(5_000, 16 * 1024, move || match catch(move || append_in_process(i2, n2, c2)) {
                 Ok(Ok(out)) => format!("ok {}", hex(&out)),
                 Ok(Err(e)) => format!("err {}", err_kind(&e)),
                 Err(p) => format!("panic {p}"),
